@@ -119,19 +119,87 @@ def normalise(tree, wrap_star=True):
     return out, n.rewrites
 
 
+TEMP_NAME = "_Scenic_temporary_name"
+
+
+def _is_ns(node):
+    return isinstance(node, ast.Name) and node.id == BEHAVIOR_NS
+
+
 class _UnBehavior(ast.NodeTransformer):
-    """Inverse of the behavior-local storage: _Scenic_current_behavior.x -> x (used on Scenic's output
-    for fragments embedded in behaviors / monitors / scenario blocks; accepts either storage form)."""
+    """Inverse of the behavior-local storage (used on Scenic's output for fragments embedded in
+    behaviors / monitors / scenario blocks; accepts either storage form for any name):
+        _Scenic_current_behavior.x                                   ->  x
+        (tmp := v, _Scenic_current_behavior.__setattr__('x', tmp))[0] ->  (x := v)
+        x: T = v with an attribute target (simple=0)                 ->  simple=1
+        type T = v ; _Scenic_current_behavior.T = T                  ->  type T = v
+    """
 
     def visit_Attribute(self, node):
-        if isinstance(node.value, ast.Name) and node.value.id == BEHAVIOR_NS:
+        if _is_ns(node.value):
             return ast.copy_location(ast.Name(id=node.attr, ctx=node.ctx), node)
         return self.generic_visit(node)
+
+    def visit_Subscript(self, node):
+        t = node.value
+        if (
+            isinstance(t, ast.Tuple)
+            and len(t.elts) == 2
+            and isinstance(node.slice, ast.Constant)
+            and node.slice.value == 0
+            and isinstance(t.elts[0], ast.NamedExpr)
+            and t.elts[0].target.id == TEMP_NAME
+            and isinstance(t.elts[1], ast.Call)
+            and isinstance(t.elts[1].func, ast.Attribute)
+            and t.elts[1].func.attr == "__setattr__"
+            and _is_ns(t.elts[1].func.value)
+            and len(t.elts[1].args) == 2
+            and isinstance(t.elts[1].args[0], ast.Constant)
+        ):
+            new = ast.NamedExpr(
+                target=ast.copy_location(ast.Name(id=t.elts[1].args[0].value, ctx=ast.Store()), node),
+                value=self.visit(t.elts[0].value),
+            )
+            return ast.copy_location(new, node)
+        return self.generic_visit(node)
+
+    def visit_AnnAssign(self, node):
+        # whether the name was parenthesised (`(x): T`, simple=0) cannot be recovered from an
+        # attribute target: the flag is not compared for name targets in embedded fragments
+        node = self.generic_visit(node)
+        if isinstance(node.target, ast.Name):
+            node.simple = 1
+        return node
+
+    def generic_visit(self, node):
+        node = super().generic_visit(node)
+        for f in ("body", "orelse", "finalbody"):
+            body = getattr(node, f, None)
+            if isinstance(body, list) and body and isinstance(body[0], ast.stmt):
+                setattr(node, f, _drop_alias_stores(body))
+        return node
+
+
+def _drop_alias_stores(body):
+    out = []
+    for st in body:
+        prev = out[-1] if out else None
+        if (
+            isinstance(st, ast.Assign)
+            and isinstance(prev, getattr(ast, "TypeAlias", ()))
+            and len(st.targets) == 1
+            and isinstance(st.targets[0], ast.Name)
+            and isinstance(st.value, ast.Name)
+            and st.targets[0].id == st.value.id == prev.name.id
+        ):
+            continue  # (after the attribute -> name mapping the store reads `T = T`)
+        out.append(st)
+    return out
 
 
 def unbehavior(nodes):
     t = _UnBehavior()
-    return [t.visit(n) for n in nodes]
+    return _drop_alias_stores([t.visit(n) for n in nodes])
 
 
 # ------------------------------------------------------------------------------------------------
